@@ -974,3 +974,132 @@ Proof.
 Qed.
 
 End ShowProofs.
+
+(* ------------------------------------------------------------------------------------------ *)
+(* the statements in the form Properties_C14.v quotes them *)
+
+Section Final.
+Variable V : Type.
+Variable render : list byte -> ckind -> V -> option (list byte).
+Variable show : V -> list byte.
+Notation texts := (texts V render show).
+Notation print_to := (print_to V render show).
+
+Lemma texts_length : forall items args ts, texts items args = Some ts -> length ts = length items.
+Proof.
+  induction items as [|it r IH]; intros args ts H.
+  - inversion H. reflexivity.
+  - cbn [Format.texts] in H. destruct (consumes it).
+    + destruct args as [|a args']; [discriminate|].
+      destruct (item_text V render show it (Some a)); [|discriminate].
+      destruct (texts r args') as [ts'|] eqn:E; [|discriminate].
+      inversion H; subst. simpl. f_equal. eapply IH; eauto.
+    + destruct (item_text V render show it None); [|discriminate].
+      destruct (texts r args) as [ts'|] eqn:E; [|discriminate].
+      inversion H; subst. simpl. f_equal. eapply IH; eauto.
+Qed.
+
+Theorem print_string : forall items args s pos ts,
+  wf_items items = true -> texts items args = Some ts -> items <> [] -> pos <= length s ->
+  exists st, print_to (SString s) pos (unparse items) args = ODone st
+    /\ p_sink st = SString (firstn pos s ++ concat ts)
+    /\ p_pos st = pos + length (concat ts).
+Proof.
+  intros items args s pos ts Hwf Ht Hne Hp.
+  destruct (print_to_done V render show items args (SString s) pos ts Hwf Ht) as [st [E [A [B _]]]].
+  exists st. split; [exact E|]. split; [|exact B].
+  rewrite A. apply write_all_string; [|exact Hp].
+  intros Ets. subst ts. apply texts_length in Ht. destruct items; [contradiction|discriminate].
+Qed.
+
+Theorem print_string_beyond : forall items args s pos ts,
+  wf_items items = true -> texts items args = Some ts -> length s < pos ->
+  exists st, print_to (SString s) pos (unparse items) args = ODone st
+    /\ p_sink st = SString s
+    /\ p_pos st = pos + length (concat ts).
+Proof.
+  intros items args s pos ts Hwf Ht Hp.
+  destruct (print_to_done V render show items args (SString s) pos ts Hwf Ht) as [st [E [A [B _]]]].
+  exists st. split; [exact E|]. split; [|exact B].
+  rewrite A. apply write_all_string_beyond. exact Hp.
+Qed.
+
+Theorem print_file : forall items args s pos ts,
+  wf_items items = true -> texts items args = Some ts ->
+  exists st, print_to (SFile s) pos (unparse items) args = ODone st
+    /\ p_sink st = SFile (s ++ concat ts)
+    /\ p_pos st = pos + length (concat ts).
+Proof.
+  intros items args s pos ts Hwf Ht.
+  destruct (print_to_done V render show items args (SFile s) pos ts Hwf Ht) as [st [E [A [B _]]]].
+  exists st. split; [exact E|]. split; [|exact B].
+  rewrite A. apply write_all_file.
+Qed.
+
+Theorem print_empty : forall k pos args,
+  print_to k pos [] args = ODone (mkP k pos 0 []).
+Proof. reflexivity. Qed.
+
+(* a lone '%' : the NUL write of the piece buffer lands one byte behind it (malloc(strlen+1)) *)
+Theorem lone_percent_crashes : forall k pos a, print_to k pos [PCT] [a] = OCrash.
+Proof. reflexivity. Qed.
+
+End Final.
+
+(* ---- a concrete instance: the hypotheses of the theorems are satisfiable ---- *)
+Definition ex_render (p : list byte) (k : ckind) (v : nat) : option (list byte) := Some [v; v].
+Definition ex_show (v : nat) : list byte := [v].
+(* "%-5ld%.2f a%%%$%s" : specifications at the very start and the very end, adjacent ones, %%, %$ *)
+Definition ex_items : list item :=
+  [Conv [45] [53] [] [108] 100; Conv [] [] [46; 50] [] 102; Lit [32; 97]; Percent; ShowDollar; Conv [] [] [] [] 115].
+Definition ex_fmt : list byte := [37; 45; 53; 108; 100; 37; 46; 50; 102; 32; 97; 37; 37; 37; 36; 37; 115].
+
+Lemma ex_wf : wf_items ex_items = true /\ unparse ex_items = ex_fmt /\ ex_items <> [].
+Proof. repeat split. discriminate. Qed.
+
+Lemma ex_texts : texts nat ex_render ex_show ex_items [1; 2; 3; 4] = Some [[1; 1]; [2; 2]; [32; 97]; [37]; [3]; [4; 4]].
+Proof. reflexivity. Qed.
+
+Lemma ex_print_string :
+  print_to nat ex_render ex_show (SString [104; 105; 33]) 2 ex_fmt [1; 2; 3; 4]
+  = ODone (mkP (SString [104; 105; 1; 1; 2; 2; 32; 97; 37; 3; 4; 4]) 12 4
+               [CFmt 10 [37; 115] (Some (KStr, 3)); CShow 9 2; CFmt 8 [37; 37] None; CFmt 6 [32; 97] None;
+                CFmt 4 [37; 46; 50; 102] (Some (KFloat, 1)); CFmt 2 [37; 45; 53; 108; 100] (Some (KInt, 0))]).
+Proof. vm_compute. reflexivity. Qed.
+
+Lemma ex_few : length [1; 2] < nconsumers ex_items
+  /\ exists st, print_to nat ex_render ex_show (SFile []) 0 ex_fmt [1; 2] = ORaise st /\ p_sink st = SFile [1; 1; 2; 2; 32; 97; 37].
+Proof. split; [vm_compute; lia|]. eexists. split; vm_compute; reflexivity. Qed.
+
+(* when the unfinished specification is not the whole text, the scanner walks past the NUL
+   (provided libc does not fail on the incomplete specification) *)
+Lemma trailing_percent_crashes :
+  print_to nat (fun _ _ _ => Some []) ex_show (SFile []) 0 [97; PCT] [1] = OCrash
+  /\ print_to nat (fun _ _ _ => None) ex_show (SFile []) 0 [97; PCT] [1] = ORaise (mkP (SFile [97]) 1 1 [CFmt 0 [97] None]).
+Proof. split; vm_compute; reflexivity. Qed.
+
+Lemma ex_scan : scan ex_fmt = Ok (map tok_of ex_items).
+Proof. vm_compute. reflexivity. Qed.
+
+(* Array_Show's opener "<'Array' At 0x%p [" and closer "]>" *)
+Definition array_open : list item :=
+  [Lit [60; 39; 65; 114; 114; 97; 121; 39; 32; 65; 116; 32; 48; 120]; Conv [] [] [] [] 112; Lit [32; 91]].
+Definition array_close : list item := [Lit [93; 62]].
+
+Lemma ex_array_show :
+  wf_items array_open = true /\ wf_items array_close = true
+  /\ texts nat ex_render ex_show array_open [9] = Some [[60; 39; 65; 114; 114; 97; 121; 39; 32; 65; 116; 32; 48; 120]; [9; 9]; [32; 91]]
+  /\ texts nat ex_render ex_show array_close [] = Some [[93; 62]]
+  /\ exists st, show_seq nat ex_render ex_show (unparse array_open) (unparse array_close) 9 [5; 6; 7] (SFile []) 0 = ODone st
+       /\ p_sink st = SFile ([60; 39; 65; 114; 114; 97; 121; 39; 32; 65; 116; 32; 48; 120; 9; 9; 32; 91] ++ [5; 44; 32; 6; 44; 32; 7] ++ [93; 62]).
+Proof. repeat split. eexists. split; vm_compute; reflexivity. Qed.
+
+Lemma ex_string_bundle :
+  texts nat ex_render ex_show ex_items [1; 2; 3; 4] <> None
+  /\ exists st, print_to nat ex_render ex_show (SString [104; 105; 33]) 2 ex_fmt [1; 2; 3; 4] = ODone st.
+Proof. split; [rewrite ex_texts; discriminate|]. eexists. apply ex_print_string. Qed.
+
+Lemma ex_container_bundle :
+  wf_items array_open = true /\ wf_items array_close = true
+  /\ texts nat ex_render ex_show array_open [9] <> None /\ texts nat ex_render ex_show array_close [] <> None.
+Proof. repeat split; discriminate. Qed.
